@@ -93,6 +93,11 @@ def scenarios(tier):
                     if tier == "quick" and times == 2 and ai in (0, 5):
                         continue
                     S.append(dict(pre=pre, ai=ai, times=times, rc=False, filt=[], paired=r2))
+    # FASTA input: the same rows without qualities
+    for pre in ([], [PRE[0]], [PRE[1]], [PRE[0], PRE[1]]):
+        for ai in (0, 2, 6, 10):
+            for times in (1, 2):
+                S.append(dict(pre=pre, ai=ai, times=times, rc=(ai == 2), filt=[], fasta=True))
     # paired-end --revcomp: a pair may be swapped; the R1 rows then describe the read that came from the R2 file
     for ai in (0, 2, 4):
         for times in (1, 2):
@@ -123,6 +128,8 @@ def run_shard(d):
     inp = os.path.join(wd, "in.fq")
     clih.write_text(inp, clih.fastq_text(recs))
     out = os.path.join(wd, "o.fq")
+    inpfa = os.path.join(wd, "in.fa")
+    clih.write_text(inpfa, clih.fasta_text([(n, s_, None) for n, s_, q in recs if s_]))
     inp2 = os.path.join(wd, "in2.fq")
     clih.write_text(inp2, clih.fastq_text(mates(recs)))
     out2 = os.path.join(wd, "o2.fq")
@@ -139,7 +146,9 @@ def run_shard(d):
         if sc["rc"]:
             argv += ["--revcomp"]
         argv += sc["filt"]
-        if sc.get("paired") is not None:
+        if sc.get("fasta"):
+            r = clih.run_cli(argv + ["--info-file", infop, "-o", os.path.join(wd, "o.fa"), inpfa])
+        elif sc.get("paired") is not None:
             argv += sc["paired"]
             r = clih.run_cli(argv + ["--info-file", infop, "-o", out, "-p", out2, inp, inp2])
         else:
@@ -176,8 +185,12 @@ def _judge(V, res, case, rows, recs, byname, sc, pre_kind, mate_recs=None):
         if base not in groups:
             order.append(base)
         groups.setdefault(base, []).append(row)
-    sig = f"pre-{pre_kind}" + (":paired" if sc.get("paired") is not None else "")
+    sig = f"pre-{pre_kind}" + (":paired" if sc.get("paired") is not None else "") + (":fasta" if sc.get("fasta") else "")
     for name, seq, qual in recs:
+        if sc.get("fasta"):
+            if not seq:
+                continue  # the FASTA input omits empty reads
+            qual = ""
         res["evals"] += 1
         g = groups.get(name)
         if not g:
@@ -218,7 +231,7 @@ def _judge(V, res, case, rows, recs, byname, sc, pre_kind, mate_recs=None):
                         "the three sequence/quality fields do not concatenate to what the previous round left")
                 V.append((f"{sig}:concat{'1' if first else 'n'}", what, dict(case, read=[name, seq, qual], row=row, expected=[cur_s, cur_q])))
                 break
-            if not (len(left) == start and len(left) + len(mid) == end and len(ql) == start and len(qm) == len(mid)):
+            if not (len(left) == start and len(left) + len(mid) == end and (sc.get("fasta") or (len(ql) == start and len(qm) == len(mid)))):
                 V.append((f"{sig}:coords", "fields are not split at the reported start/end coordinates", dict(case, read=[name, seq, qual], row=row)))
                 break
             aseq = ADSEQ.get(aname)
